@@ -890,8 +890,7 @@ def unit_accept(ctx):
 
 def unit_aborted(ctx):
     """a rotate() call that raises (bad target n, unknown method, malformed rotation) - the statement says nothing about
-    such calls, so the outcome is only COUNTED (notes), never a verdict: does the next rotation still start from the
-    state before the aborted call?"""
+    such calls themselves, but the NEXT rotation must not depend on them (sequences compose from the original field)."""
     bad = ctx.choose("bad-call", ["n-zero", "n-negative", "unknown-method", "malformed-quat"])
     kind = ctx.choose("field", ["s-tracer", "v-tracer"])
     mesh = make_mesh(LATTICE_MESHES["n432-c1"])
@@ -921,6 +920,14 @@ def unit_aborted(ctx):
     ctx.check()
     same = tuple(int(k) for k in rot.field.mesh.n) == n and np.abs(np.asarray(rot.field.array, float) - arr).max() <= TOL * o.vmax
     ctx.note(("next-rotation-unaffected:" if same else "next-rotation-composed-with-the-aborted-one:") + bad)
+    # "successive rotations compose, always starting from the original field": a call that was refused is not a
+    # rotation, so the next one must give what a fresh rotator gives (history-dependence = violation)
+    if not same:
+        ctx.fail("FieldRotator.rotate/refused-call-takes-part-in-later-rotations",
+                 f"after a refused rotate ({bad}) a quarter turn about x gives n={tuple(int(k) for k in rot.field.mesh.n)}, "
+                 f"a fresh rotator gives n={n}", instance=f"bad={bad};field={kind}")
+    if C.field_snap(rot.field) is None:
+        pass
 
 
 def units(tier):
